@@ -311,10 +311,46 @@ type env struct {
 	api *storage.API
 }
 
+// linkBucketDir makes <dir>/<bucket> a symbolic link to a real directory that
+// lives elsewhere (an operator's `ln -s /mnt/data/uploaded local-telemetry-uploaded`),
+// moving what the bucket already holds.  Target absolute or relative.
+func linkBucketDir(dir, bucket string) bool {
+	path := filepath.Join(dir, bucket)
+	if fi, err := os.Lstat(path); err == nil && fi.Mode()&os.ModeSymlink != 0 {
+		return false
+	}
+	realName := fmt.Sprintf(".real-%s-%d", bucket, vrnd.Intn(1000000))
+	real := filepath.Join(dir, realName)
+	if _, err := os.Lstat(path); err == nil {
+		if err := os.Rename(path, real); err != nil {
+			return false
+		}
+	} else if err := os.MkdirAll(real, 0777); err != nil {
+		return false
+	}
+	target := real
+	if vrnd.Bool() {
+		target = realName
+	}
+	return os.Symlink(target, path) == nil
+}
+
 func newEnv() *env {
 	dir, err := os.MkdirTemp(vroot, "e")
 	if err != nil {
 		panic(err)
+	}
+	if vrnd.Chance(10) { // the local storage directory itself reached through a link
+		link := dir + "-l"
+		if os.Symlink(dir, link) == nil {
+			dir = link
+			vout.Note("layout-local-storage-dir-is-a-symlink")
+		}
+	}
+	for _, b := range []string{"upload", "merged", "chart", "prod-telemetry-uploaded"} {
+		if vrnd.Chance(22) && linkBucketDir(dir, b) {
+			vout.Note("layout-bucket-dir-is-a-symlink")
+		}
 	}
 	ctx := context.Background()
 	up, err1 := storage.NewFSBucket(ctx, dir, "upload")
@@ -326,7 +362,14 @@ func newEnv() *env {
 	return &env{dir, &storage.API{Upload: up, Merge: mg, Chart: ch}}
 }
 
-func (e *env) close() { os.RemoveAll(e.dir) }
+func (e *env) close() {
+	if real, err := filepath.EvalSymlinks(e.dir); err == nil && real != e.dir {
+		os.RemoveAll(real)
+		os.Remove(e.dir)
+		return
+	}
+	os.RemoveAll(e.dir)
+}
 
 // serve runs a handler the way the mux does (error -> status), catching panics
 func serve(h content.HandlerFunc, url string) (status string, body string) {
@@ -1103,6 +1146,14 @@ func caseSeq() {
 		vout.Note("seq-range-crosses-new-year")
 	}
 	for round := 0; round < rounds; round++ {
+		if round > 0 && vrnd.Chance(30) { // the bucket directory is moved away and replaced by a link to it
+			bi := vrnd.Intn(3)
+			if linkBucketDir(e.dir, []string{"upload", "merged", "chart"}[bi]) {
+				ops = append(ops, "relocate", I(int64(bi)))
+				nops++
+				vout.Note("seq-bucket-dir-relocated-behind-a-symlink")
+			}
+		}
 		if round == strayRound {
 			for _, n := range strayDirs(e, "upload") {
 				ops = append(ops, "stray", HS(n))
@@ -1334,6 +1385,9 @@ func caseCopy() {
 	// the destination afterwards, by the harness's own walk
 	after := map[string][]byte{}
 	root := filepath.Join(e.dir, "upload")
+	if r, err := filepath.EvalSymlinks(root); err == nil {
+		root = r // filepath.WalkDir does not follow a link at its root
+	}
 	filepath.WalkDir(root, func(path string, d os.DirEntry, err error) error {
 		if err != nil || d.IsDir() {
 			return nil
